@@ -112,3 +112,261 @@ M.contract(P_TCHS + ':ComposedTestCaseTransformer.transform',
 
 M.contract(P_TCHS + ':TestCaseTransformer.transform', params=dict(self=Inst(TestCaseTransformer), test_case=Any_),
            inline=True, ensures={'identity': lambda test_case, result: result is test_case}, raises_only=())
+
+
+# ============================================================================ the handling setup derived from a suite
+
+class ConfInstructionI(Interface):
+    """a [conf] instruction of a suite (environment: it may set the preprocessor and the act phase setup of the
+    environment it is given to anything)"""
+    target_class = ConfigurationSectionInstruction
+
+    @staticmethod
+    def _execute(interp, self, args, kwargs):
+        (env,) = args
+        interp.st.emit('suite-conf-instruction', self, env)
+        interp.setattr(env, '_preprocessor', Any_.make(interp, 'preprocessor-set-by-suite'))
+        interp.setattr(env, '_act_phase_setup', Any_.make(interp, 'act-phase-setup-set-by-suite'))
+        return None
+
+    methods = {'execute': Method(model=lambda interp, self, args, kwargs:
+    ConfInstructionI._execute(interp, self, args, kwargs))}
+
+
+class InstructionInfoI(Interface):
+    attrs = {'instruction': Iface(ConfInstructionI)}
+
+
+class ElementI(Interface):
+    attrs = {'element_type': EnumOf(ElementType), 'instruction_info': Iface(InstructionInfoI)}
+
+
+HANDLING_SETUP = Inst(TestCaseHandlingSetup, _tuple=[Any_, Any_, Iface(TransformerI)])
+CONF_SECTION = Inst(SectionContents, _elements=ListOf(Iface(ElementI)))
+SUITE_DOC_W_CONF = Inst(test_suite_doc.TestSuiteDocument, _tuple=[CONF_SECTION, Any_, Any_, TEST_CASE])
+CONF_ENV = Inst(ConfigurationSectionEnvironment, _preprocessor=Any_, _act_phase_setup=Any_)
+
+
+def no_instruction_before(xs, n):
+    return forall_range(0, n, lambda j: xs[j].element_type is not ElementType.INSTRUCTION)
+
+
+def executed_on(trace, env):
+    """every suite [conf] instruction executed so far was given `env`"""
+    return all(e[2] is env for e in trace if e[0] == 'suite-conf-instruction')
+
+
+M.contract(P_SFR + ':derive_conf_section_environment',
+           params=dict(test_suite=SUITE_DOC_W_CONF, default_handling_setup=HANDLING_SETUP), returns=CONF_ENV,
+           event='derive_conf_section_environment',
+           ensures={
+               'a-new-environment-not-the-default-setup': lambda result, default_handling_setup:
+               type(result) is ConfigurationSectionEnvironment and result is not default_handling_setup,
+               'without-suite-conf-instructions-the-defaults-apply': lambda test_suite, default_handling_setup, result:
+               (not no_instruction_before(test_suite.configuration_section.elements,
+                                          len(test_suite.configuration_section.elements)))
+               or (result.preprocessor is default_handling_setup.preprocessor
+                   and result.act_phase_setup is default_handling_setup.act_phase_setup),
+               'the-default-setup-is-not-changed': lambda default_handling_setup, old:
+               default_handling_setup.preprocessor is old[0] and default_handling_setup.act_phase_setup is old[1]
+               and default_handling_setup.transformer is old[2],
+           },
+           old=lambda default_handling_setup: (default_handling_setup.preprocessor,
+                                               default_handling_setup.act_phase_setup,
+                                               default_handling_setup.transformer),
+           raises_only=())
+# the loop executes the instruction of element _i (if it is one) on the one environment; order is the loop's
+M.loop(P_SFR + ':derive_conf_section_environment', 0,
+       invariant=lambda _i, _xs, instruction_environment, default_handling_setup, trace:
+       type(instruction_environment) is ConfigurationSectionEnvironment
+       and executed_on(trace, instruction_environment)
+       and ((not no_instruction_before(_xs, _i))
+            or (instruction_environment.preprocessor is default_handling_setup.preprocessor
+                and instruction_environment.act_phase_setup is default_handling_setup.act_phase_setup)),
+       modifies={'section_element': 'local', 'instruction': 'local',
+                 'instruction_environment._preprocessor': Any_, 'instruction_environment._act_phase_setup': Any_})
+
+M.contract(P_SFR + ':resolve_test_case_handling_setup',
+           params=dict(test_suite=SUITE_DOC_W_CONF, default_handling_setup=HANDLING_SETUP),
+           # at call sites: some actor / preprocessor (whatever the suite's [conf] sets) and the transformer the
+           # third clause describes
+           returns=Dependent(lambda interp, name, env: TestCaseHandlingSetup(
+               Any_.make(interp, name + '.act_phase_setup'), Any_.make(interp, name + '.preprocessor'),
+               ComposedTestCaseTransformer(
+                   env['default_handling_setup'].transformer,
+                   suite_file_reading._TestCaseInstructionsFromTestSuiteAdder(env['test_suite'])))),
+           event='resolve_test_case_handling_setup',
+           ensures={
+               'actor-and-preprocessor-from-the-suite-conf-environment': (lambda result, trace:
+               [e[0] for e in trace] == ['derive_conf_section_environment',
+                                         'derive_conf_section_environment:returned']
+               and result.act_phase_setup is trace[1][2].act_phase_setup
+               and result.preprocessor is trace[1][2].preprocessor, 'check-only'),
+               'environment-derived-from-this-suite-and-this-default': (lambda test_suite, default_handling_setup, trace:
+               trace[0][1]['test_suite'] is test_suite
+               and trace[0][1]['default_handling_setup'] is default_handling_setup, 'check-only'),
+               'transformer: the default one, then the suite contents are added': lambda test_suite, default_handling_setup, result:
+               type(result.transformer) is ComposedTestCaseTransformer
+               and result.transformer._first is default_handling_setup.transformer
+               and type(result.transformer._second) is suite_file_reading._TestCaseInstructionsFromTestSuiteAdder
+               and result.transformer._second._test_suite is test_suite,
+           },
+           raises_only=())
+
+
+# ============================================================================ reading the suite: both routes
+
+from exactly_lib.test_suite.file_reading.exception import SuiteParseError, SuiteReadError
+
+PATH = c04.PATH
+
+
+def _mk_file_in_dir(interp, name):
+    """a file path with a directory part: DIR / NAME (NAME a relative name)"""
+    d = fsmodel.mk_path(interp, Str.make(interp, name + '.dir'))
+    n = Str.make(interp, name + '.name')
+    interp.st.assume(interp.not_(interp.call(interp.getattr(n, 'startswith'), ['/'], {})))
+    return interp.binop(__import__('ast').Div, d, n)
+
+
+FILE_IN_DIR = Custom(_mk_file_in_dir)
+
+
+def Const_bare_name():
+    """a case file given by a bare name (`exactly x.case`): pathlib's parent is '.'"""
+    return Custom(lambda interp, name: fsmodel.mk_path(interp, 'x.case'))
+
+# Reading and parsing a suite file is outside the property (C07 / C16); what matters here is WHICH file is read
+# with WHICH parsers: the call is a ghost event.  It may fail with SuiteParseError.
+M.contract(P_SFR + ':read_suite_document', trusted=True,
+           params=dict(suite_file_path=PATH, configuration_section_parser=Any_, test_case_parsing_setup=Any_),
+           returns=SUITE_DOC_W_CONF, event='read_suite_document', may_raise=(SuiteParseError,))
+M.trust('read_suite_document(path, conf parser, parsing setup) returns the document of that file or raises '
+        'SuiteParseError (parsing is C07/C16); determinism of reading the same file twice is assumed')
+
+
+def calls(trace, name):
+    """(arguments, result) of the calls of the contracted function `name` that returned"""
+    out = []
+    for i, e in enumerate(trace):
+        if e[0] == name:
+            rest = [x for x in trace[i + 1:] if x[0] == name + ':returned' and x[1] is e[1] or
+                    x[0] == name + ':returned' and x[1] == e[1]]
+            out.append((e[1], rest[0][2] if rest else None))
+    return out
+
+
+def setup_resolved_from(trace, suite_file, parser, parsing_setup, default, result):
+    """`result` is resolve_test_case_handling_setup(read_suite_document(suite_file, parser, parsing_setup), default)
+    -- and these are the only two calls"""
+    reads = calls(trace, 'read_suite_document')
+    resolves = calls(trace, 'resolve_test_case_handling_setup')
+    return (len(reads) == 1 and len(resolves) == 1
+            and str(reads[0][0]['suite_file_path']) == str(suite_file)
+            and reads[0][0]['configuration_section_parser'] is parser
+            and reads[0][0]['test_case_parsing_setup'] is parsing_setup
+            and resolves[0][0]['test_suite'] is reads[0][1]
+            and resolves[0][0]['default_handling_setup'] is default
+            and result is resolves[0][1])
+
+
+M.contract(P_SFR + ':resolve_handling_setup_from_suite_file',
+           params=dict(default_handling_setup=HANDLING_SETUP, configuration_section_parser=Any_,
+                       test_case_parsing_setup=Any_, suite_to_read_config_from=PATH),
+           returns=HANDLING_SETUP, event='resolve_handling_setup_from_suite_file', may_raise=(SuiteParseError,),
+           ensures={'resolved-from-the-document-of-that-file-and-the-default': (
+               lambda default_handling_setup, configuration_section_parser, test_case_parsing_setup,
+                      suite_to_read_config_from, result, trace:
+               setup_resolved_from(trace, suite_to_read_config_from, configuration_section_parser,
+                                   test_case_parsing_setup, default_handling_setup, result), 'check-only')},
+           raises_only=())
+
+# ---- standalone: explicit suite, else exactly.suite beside the case if it is a file, else the default
+
+ACCESSOR_RESOLVER = Inst(accessor_resolver.AccessorResolver, _test_case_parsing_setup=Any_,
+                         _suite_configuration_section_parser=Any_, _default_handling_setup=HANDLING_SETUP)
+
+
+def suite_file_used(trace):
+    return [str(a['suite_to_read_config_from']) for (a, r) in calls(trace, 'resolve_handling_setup_from_suite_file')]
+
+
+def asked_for(trace):
+    return [(e[1], e[3]) for e in trace if e[0] == 'exists?']
+
+
+def beside(test_case_file_path):
+    return str(test_case_file_path.parent / 'exactly.suite')
+
+
+def from_suite_file(self, trace, result):
+    c = calls(trace, 'resolve_handling_setup_from_suite_file')
+    return (len(c) == 1 and result is c[0][1]
+            and c[0][0]['default_handling_setup'] is self._default_handling_setup
+            and c[0][0]['configuration_section_parser'] is self._suite_configuration_section_parser
+            and c[0][0]['test_case_parsing_setup'] is self._test_case_parsing_setup)
+
+
+M.contract(P_ACC + ':AccessorResolver._handling_setup',
+           params=dict(self=ACCESSOR_RESOLVER, test_case_file_path=Union(FILE_IN_DIR, Const_bare_name()),
+                       explicit_suite_file_path=Opt(PATH)),
+           returns=HANDLING_SETUP, event='_handling_setup', may_raise=(SuiteParseError,),
+           ensures={
+               'explicit suite: its setup': (lambda self, explicit_suite_file_path, result, trace:
+               explicit_suite_file_path is None
+               or (from_suite_file(self, trace, result)
+                   and same_path(suite_file_used(trace)[0], explicit_suite_file_path)), 'check-only'),
+               'no explicit suite, exactly.suite beside the case is a file: its setup': (
+                   lambda self, test_case_file_path, explicit_suite_file_path, result, trace:
+                   explicit_suite_file_path is not None or asked_for(trace) != [(beside(test_case_file_path), True)]
+                   or (from_suite_file(self, trace, result)
+                       and suite_file_used(trace) == [beside(test_case_file_path)]), 'check-only'),
+               'neither: the default setup, no suite is read': (
+                   lambda self, test_case_file_path, explicit_suite_file_path, result, trace:
+                   explicit_suite_file_path is not None or asked_for(trace) != [(beside(test_case_file_path), False)]
+                   or (result is self._default_handling_setup
+                       and calls(trace, 'resolve_handling_setup_from_suite_file') == []), 'check-only'),
+               'the only file looked for is exactly.suite beside the case': (
+                   lambda test_case_file_path, explicit_suite_file_path, trace:
+                   asked_for(trace) == [] if explicit_suite_file_path is not None
+                   else [p for (p, a) in asked_for(trace)] == [beside(test_case_file_path)], 'check-only'),
+           },
+           raises_only=())
+
+
+def same_path(s, p):
+    return s == str(p)
+
+
+def _m_same_path(interp, args, kwargs):
+    s, p = [interp.resolve(x) if isinstance(x, fsmodel.SOpt) else x for x in args]
+    return interp.eq(s, fsmodel.path_str(interp, p))
+
+
+M.model(same_path, _m_same_path)
+
+M.contract(P_PROC + ':new_accessor',
+           params=dict(preprocessor=Any_, test_case_parsing_setup=Any_, test_case_transformer=Any_), inline=True,
+           ensures={'accessor-of-exactly-these-parts': lambda preprocessor, test_case_parsing_setup,
+                                                              test_case_transformer, result:
+           type(result) is processing_utils.AccessorFromParts
+           and result._pre_processor is preprocessor and result._transformer is test_case_transformer
+           and type(result._parser) is processors._Parser
+           and result._parser._test_case_parsing_setup is test_case_parsing_setup
+           and type(result._source_reader) is processors._SourceReader},
+           raises_only=())
+
+M.contract(P_ACC + ':AccessorResolver.resolve',
+           params=dict(self=ACCESSOR_RESOLVER, test_case_file_path=PATH, explicit_suite_file_path=Opt(PATH)),
+           may_raise=(SuiteParseError,),
+           ensures={'accessor and actor are built from the parts of the resolved handling setup': lambda self, result, trace:
+           len(calls(trace, '_handling_setup')) == 1
+           and result[0]._pre_processor is calls(trace, '_handling_setup')[0][1].preprocessor
+           and result[0]._transformer is calls(trace, '_handling_setup')[0][1].transformer
+           and result[0]._parser._test_case_parsing_setup is self._test_case_parsing_setup
+           and result[1] is calls(trace, '_handling_setup')[0][1].act_phase_setup,
+                    'the handling setup is resolved for this case and this explicit suite': lambda test_case_file_path, explicit_suite_file_path, trace:
+                    calls(trace, '_handling_setup')[0][0]['test_case_file_path'] is test_case_file_path
+                    and same_object(calls(trace, '_handling_setup')[0][0]['explicit_suite_file_path'],
+                                    explicit_suite_file_path)},
+           raises_only=())
